@@ -26,7 +26,10 @@ for d in sorted(os.listdir(sd)):
     catchers = []
     for r in runs:
         if r["caught"]:
-            c = "%s: `%s`" % (r["check"], r["signatures"][0] if r["signatures"] else "-")
+            sig = (r["signatures"][0] if r["signatures"] else "-").replace("|", "/")  # a pipe would split the table cell
+            if len(sig) > 90:
+                sig = sig[:87] + "..."
+            c = "%s: `%s`" % (r["check"], sig)
             if c not in catchers:
                 catchers.append(c)
     n = notes.get(d, {})
